@@ -238,6 +238,15 @@ def gen_ionq_program(rng, native=False, max_ops=10, allow_pauli=True):
             else:
                 p = (_ionq_exp(rng, fam), GP.pick_shift(rng))
             w = tuple(int(x) for x in rng.choice(n, size=2 if two else 1, replace=False))
+        if ops and fam != "pauliexp" and rng.random() < 0.25:
+            # an echo of an earlier operation: same family and wires, all parameters but one repeated (what a cache keyed on
+            # too little would confuse)
+            cands = [o for o in ops if o[0] == fam and len(o[1]) == len(p)]
+            if cands:
+                f0, p0, w0 = cands[int(rng.integers(len(cands)))]
+                j = int(rng.integers(len(p))) if len(p) else 0
+                p = tuple(p[i] if i == j else p0[i] for i in range(len(p)))
+                w = w0
         ops.append((fam, tuple(p), w))
     keys = gen_keys(rng, n)
     if not ops and not keys:
